@@ -65,6 +65,9 @@ type params struct {
 	// (default: dial timeout + 1.5 s). Long values find deadlines that either end left armed on the
 	// connection after login (they only show once their time has passed).
 	IdleMS int `json:"idle_ms,omitempty"`
+	// CallMiB (deadline leg): the callsign is this many MiB long - more than the socket buffers of the link hold, so
+	// that against a server that does not read the dialler is inside a write, not a read, when its time is up
+	CallMiB int `json:"call_mib,omitempty"`
 }
 
 const (
@@ -205,6 +208,13 @@ func plan(seed int64, tier string) []vrt.Case {
 		}
 	}
 
+	for i, api := range deadlineAPIs {
+		if tier != "thorough" && i%2 == 1 {
+			continue
+		}
+		add(params{Leg: "deadline", API: api, Kind: "prompt-never-reads", DMs: 300, CallMiB: 24, PW: []byte("secret")})
+	}
+	add(params{Leg: "deadline", API: "ctx", Kind: "callsign-forever", DMs: 300, CallMiB: 24, PW: []byte("secret")})
 	for _, kind := range []string{"silent", "prompt-then-silence", "partial-prompt"} {
 		add(params{Leg: "deadline", API: "dialer-reused", Kind: kind, DMs: 300, Call: []byte("LA5NTA"), PW: []byte("secret")})
 	}
@@ -962,7 +972,12 @@ func runDeadline(o *vrt.Obs, p params) {
 			return
 		}
 		done := make(chan dialOut, 1)
-		doDial, _ := prepDial(p.API, h.addr(), string(p.Call), string(p.PW), d)
+		call := string(p.Call)
+		if p.CallMiB > 0 {
+			call = strings.Repeat("N0CALL-1", p.CallMiB<<17)
+			o.Count("deadline_dials_with_a_callsign_larger_than_the_socket_buffers", 1)
+		}
+		doDial, _ := prepDial(p.API, h.addr(), call, string(p.PW), d)
 		t0 := time.Now()
 		go func() {
 			c, err := doDial()
